@@ -27,7 +27,7 @@ PROP = {'lean': 'MpsProps.C18',
                'Mps.C18.gen_alone_and_newPool',
                'Mps.C18.gen_yield_points'],
  'suites': [{'name': 'pool', 'quick': 150, 'thorough': 3000}],
- 'propfields': {'pool': ['ok', 'results']},
+ 'propfields': {'pool': ['ok', 'results', 'returned', 'searchLen', 'searchNonNil']},
  'level_text': 'Proof: the pool is modelled as a transition system (caller + W workers, program counters at every channel send/receive, atomic '
                'counter operation and result write; a rendezvous on an unbuffered channel is one step). For the handshake that is in /repo after '
                'the repair (one notification per command, sent after the last result write; the caller counts notifications) Lean proves, for '
